@@ -1,7 +1,7 @@
 #!/bin/bash
 # runs every seeded change against every quick check (4 lanes); writes seeded/<id>/result.json
 cd /verif
-ids=$(ls seeded | grep -E '^C[0-9]+[a-z]$')
+pat=${1:-.}; ids=$(ls seeded | grep -E "^C[0-9]+[a-z]$" | grep -E "$pat")
 lane() { for id in "$@"; do python3 tools/seedtest.py seeded/$id --all > seeded/$id/result.json 2> /tmp/mut/$id.err; echo "$id done"; done; }
 mkdir -p /tmp/mut
 a=(); b=(); c=(); d=(); e=(); f=(); i=0
